@@ -11,7 +11,9 @@ use std::task::{Context, Poll};
 pub struct MutexExec<M: RawMutex + 'static> {
     mx: &'static GenericMutex<M, u64>,
     futs: Slots<GenericMutexLockFuture<'static, M, u64>>,
-    guards: Vec<GenericMutexGuard<'static, M, u64>>,
+    // guard + the payload value this holder wrote through it (exclusive access: it must still
+    // be there when the guard is dropped)
+    guards: Vec<(GenericMutexGuard<'static, M, u64>, u64)>,
     view: bool,
 }
 
@@ -59,8 +61,10 @@ impl<M: RawMutex + 'static> Exec for MutexExec<M> {
                 o.r = match lib(|| fut.poll(&mut cx)) {
                     None => vec![R_PANIC],
                     Some(Poll::Pending) => vec![R_PENDING],
-                    Some(Poll::Ready(g)) => {
-                        self.guards.push(g);
+                    Some(Poll::Ready(mut g)) => {
+                        let v = (*g).wrapping_add(1); // Deref
+                        *g = v; // DerefMut
+                        self.guards.push((g, v));
                         vec![R_READY]
                     }
                 };
@@ -72,15 +76,19 @@ impl<M: RawMutex + 'static> Exec for MutexExec<M> {
                 o.r = match lib(|| mx.try_lock()) {
                     None => vec![R_PANIC],
                     Some(None) => vec![R_NONE],
-                    Some(Some(g)) => {
-                        self.guards.push(g);
+                    Some(Some(mut g)) => {
+                        let v = (*g).wrapping_add(1);
+                        *g = v;
+                        self.guards.push((g, v));
                         vec![R_SOME]
                     }
                 };
             }
             [4] if !self.guards.is_empty() => {
-                let g = self.guards.remove(0);
-                o.r = vec![lib(move || drop(g)).map_or(R_PANIC, |_| R_UNIT)];
+                let (g, v) = self.guards.remove(0);
+                // 78 = somebody else wrote the payload while this guard was alive
+                let intact = *g == v;
+                o.r = vec![lib(move || drop(g)).map_or(R_PANIC, |_| if intact { R_UNIT } else { 78 })];
             }
             [5] => {
                 o.r = vec![lib(|| mx.is_locked()).map_or(R_PANIC, rbool)];
